@@ -285,7 +285,7 @@ def one(ctx, rng, xr):
             if margin < 1e-4:
                 rec.skip(op, "a frequency within rounding of the tail-window edge")
                 continue
-            if not np.isfinite(a) or abs(a) > 1e30:
+            if not np.isfinite(a) or abs(a) > 1e25:      # float32 intermediates (f**5, (2 pi)**4) overflow before the result does
                 rec.skip(op, "tail-fit value beyond the float32 range of the documented result")
                 continue
             if len(acceptable) > 1:
